@@ -467,3 +467,35 @@ def r10j(ctx: Ctx) -> list[Ob]:
     if reads_params and reads_subs:
         return [ok("R10j", fq, "reaches-sub-modules", "visits params and sub_modules of every layer (one level)", f.loc)]
     return [viol("R10j", fq, "reaches-sub-modules", "reset_parameters visits l.params of the circuit's layers only: the parameter graphs of wrapped layers (sub_modules, e.g. the layer inside an evidence layer) are never allocated / re-initialised -- a wrapped layer that owns a tensor evaluates with 'tensor parameter has not been initialized'", f.loc)]
+
+
+# ------------------------------------------------------------------------------------------ R10k
+def r10k(ctx: Ctx) -> list[Ob]:
+    """R10k -- 'every learnable tensor exactly once': a reference does not register its target.
+
+    ``nn.Module.__setattr__`` registers every module-valued attribute as a child, and ``state_dict``
+    lists a child's tensors under the parent's prefix.  A pointer node that keeps the tensor it refers
+    to in a plain attribute therefore makes the *referenced* tensor part of the state dict of every
+    circuit that points at it -- once per pointer (squaring a circuit lists each of its tensors twice
+    in the product's dictionary, same storage under two keys).  The pointer class has to hold its
+    target outside the module registry (``object.__setattr__``, a tuple / weak reference) for the
+    clause to hold for derived circuits."""
+    pq = "cirkit.backend.torch.parameters.nodes.TorchPointerParameter"
+    pc = ctx.repo.cls(pq)
+    init = ctx.repo.lookup(pc, "__init__")
+    if init is None:
+        return [unres("R10k", pq, "target-unregistered", "no __init__", pc.loc)]
+    tgt = None
+    for p in init.params:
+        if p.annotation is not None and "TorchTensorParameter" in unparse(p.annotation):
+            tgt = p.name
+    if tgt is None:
+        return [unres("R10k", pq, "target-unregistered", "the constructor parameter holding the target was not identified", init.loc)]
+    for n in walk_no_nested(init.node):
+        if isinstance(n, (ast.Assign, ast.AnnAssign)):
+            tgts = n.targets if isinstance(n, ast.Assign) else [n.target]
+            val = n.value
+            for t in tgts:
+                if is_self_attr(t) and isinstance(val, ast.Name) and val.id == tgt:
+                    return [viol("R10k", pq, "target-unregistered", f"`{unparse(n)}` stores the referenced TorchTensorParameter in a plain attribute: nn.Module registers it as a child of the pointer, so the state dict of a derived circuit lists the operand's tensor once per pointer ('exactly once' fails for every circuit with two pointers to one tensor, e.g. c * c)", f"{init.module.relpath}:{n.lineno}")]
+    return [ok("R10k", pq, "target-unregistered", "the target is not stored as a registered child module", init.loc)]
